@@ -1,12 +1,17 @@
 import MJ.Model.FuelProg
+import MJ.Model.FuelEdge
 /-! Line driver for C13.
 Input (tab separated):
 * `id  B1,B2,…  probeBudget  k1,k2,…  name name …` — an executed trace;
   output `id  thr  total  B:status:consumed:remaining:executed,…  k:consumed:remaining,…`
-* `S  id  B1,B2,…  counts  fails  tokens` — a structured program (`MJ.Fuel.P`) with its context:
-  `counts` = `loopid:i.j:count;…`, `fails` = `failid:i.j;…`, `tokens` = prefix form
-  (`I name` | `F name id` | `L id nh ni nb nx names… body… E` | sequence); output
-  `id  thr  cost  B:outcome:consumed:remaining:executed,…  ok|fail  trace` -/
+* `S  id  B1,B2,…  counts  fails  conds  tokens` — a structured program (`MJ.Fuel.P`) with its context:
+  `counts` = `loopid:i.j:count;…`, `fails` = `failid:i.j;…`, `conds` = `condid:i.j;…` (the conditionals
+  that take their first branch), `tokens` = prefix form
+  (`I name` | `F name id` | `L id nh ni nb nx names… body… E` | `B id then… E else… E` | sequence); output
+  `id  thr  cost  B:outcome:consumed:remaining:executed,…  ok|fail  trace`
+* `E  id  m  B1,B2,…  frame  callee` — a nested-evaluation edge: its own instructions and the trace of the
+  callee it runs `m` times; output `E  id  thr  total  B:status:consumed:remaining,…` predicted from the
+  parts (`edgeRun`, theorem `edge_consumption_adds_up`) -/
 open MJ MJ.Fuel
 
 def natList (s : String) : List Nat :=
@@ -27,7 +32,7 @@ def showProbe (B : Nat) (trace : List String) (k : Nat) : String :=
 def pathOf (s : String) : List Nat :=
   if s.isEmpty then [] else (s.splitOn ".").filterMap (·.toNat?)
 
-def ctxOf (counts fails : String) : Ctx :=
+def ctxOf (counts fails : String) (conds : String := "") : Ctx :=
   let cs : List (Nat × List Nat × Nat) := (counts.splitOn ";").filterMap fun e =>
     match e.splitOn ":" with
     | [a, b, c] => match a.toNat?, c.toNat? with
@@ -38,8 +43,13 @@ def ctxOf (counts fails : String) : Ctx :=
     match e.splitOn ":" with
     | [a, b] => a.toNat?.map fun a => (a, pathOf b)
     | _ => none
+  let ds : List (Nat × List Nat) := (conds.splitOn ";").filterMap fun e =>
+    match e.splitOn ":" with
+    | [a, b] => a.toNat?.map fun a => (a, pathOf b)
+    | _ => none
   { count := fun id path => ((cs.find? fun x => x.1 == id && x.2.1 == path).map (·.2.2)).getD 0,
-    fails := fun id path => fs.any fun x => x.1 == id && x.2 == path }
+    fails := fun id path => fs.any fun x => x.1 == id && x.2 == path,
+    cond := fun id path => ds.any fun x => x.1 == id && x.2 == path }
 
 instance : Inhabited P := ⟨.skip⟩
 
@@ -54,6 +64,10 @@ partial def parseSeq (toks : List String) (acc : List P) : P × List String :=
   | [] => (seqOf acc.reverse, [])
   | "E" :: rest => (seqOf acc.reverse, rest)
   | "I" :: n :: rest => parseSeq rest (.instr n :: acc)
+  | "B" :: id :: rest =>
+    let (a, rest) := parseSeq rest []
+    let (b, rest) := parseSeq rest []
+    parseSeq rest (.branch (id.toNat?.getD 0) a b :: acc)
   | "F" :: n :: id :: rest => parseSeq rest (.mayFail n (id.toNat?.getD 0) :: acc)
   | "L" :: id :: nh :: ni :: nb :: nx :: rest =>
     let nh := nh.toNat?.getD 0; let ni := ni.toNat?.getD 0; let nb := nb.toNat?.getD 0; let nx := nx.toNat?.getD 0
@@ -73,10 +87,23 @@ def showProgRun (B : Nat) (c : Ctx) (p : P) : String :=
     | .outOfFuel => "OutOfFuel"
   s!"{B}:{st}:{r.2.tracker.consumed}:{r.2.tracker.remainingFuel}:{r.2.executed.length}"
 
+def showEdgeRun (B : Nat) (frame : List String) (cs : List (List String)) : String :=
+  let r := edgeRun B frame cs
+  let st := match r.1 with
+    | .done => "ok"
+    | .outOfFuel => "OutOfFuel"
+  s!"{B}:{st}:{r.2.1}:{r.2.2}"
+
 def handle (line : String) : String :=
   match line.splitOn "\t" with
-  | ["S", id, budgets, counts, fails, toks] =>
-    let c := ctxOf counts fails
+  | ["E", id, m, budgets, frame, inner] =>
+    let f := (frame.splitOn " ").filter (· ≠ "")
+    let c := (inner.splitOn " ").filter (· ≠ "")
+    let cs := List.replicate (m.trimAscii.toString.toNat?.getD 0) c
+    let runs := ",".intercalate ((natList budgets).map (showEdgeRun · f cs))
+    s!"E\t{id}\t{edgeThr f cs}\t{edgeTotal f cs}\t{runs}"
+  | ["S", id, budgets, counts, fails, conds, toks] =>
+    let c := ctxOf counts fails conds
     let p := (parseSeq ((toks.splitOn " ").filter (· ≠ "")) []).1
     let k := cost c [] p
     let e := exec c [] p
